@@ -39,6 +39,8 @@ var (
 	opCount   int   // counts every intercepted FS operation since ArmFault
 	failAt    = -1  // index (0-based, in opCount numbering) of the operation to fail; -1 none
 	failMut   bool  // count only mutating operations
+	crashMode bool  // the armed operation does not fail: the "process" dies there (panic Crash)
+	dead      bool  // after the crash, until disarmed
 	failed    bool  // the armed fault fired
 	ErrFault  = fmt.Errorf("vshim injected fault: %w", syscall.EIO)
 	Unhandled int64 // reserved
@@ -61,11 +63,35 @@ func ArmFault(k int, mutOnly bool) {
 	opCount, failAt, failMut, failed = 0, k, mutOnly, false
 	mu.Unlock()
 }
+var lastFault string
+
+type crashT struct{}
+
+// Crash is the panic value of a simulated process death
+var Crash = crashT{}
+
+// IsDead: a simulated crash fired and has not been disarmed yet
+func IsDead() bool { mu.Lock(); defer mu.Unlock(); return dead }
+
+// ArmCrash: the k-th subsequent mutating FS operation does not happen and nothing after it
+// does either: the calling goroutine panics with Crash (deferred unlocks run, the handle must
+// be abandoned)
+func ArmCrash(k int) {
+	mu.Lock()
+	opCount, failAt, failMut, failed, crashMode = 0, k, true, false, true
+	mu.Unlock()
+}
+
+// LastFault: "<kind>:<path>" of the operation the last injected fault hit
+func LastFault() string { mu.Lock(); defer mu.Unlock(); return lastFault }
+
 func DisarmFault() (fired bool, seen int) {
 	mu.Lock()
 	defer mu.Unlock()
 	fired, seen = failed, opCount
 	failAt = -1
+	crashMode = false
+	dead = false
 	return
 }
 
@@ -73,11 +99,25 @@ func DisarmFault() (fired bool, seen int) {
 func op(kind, path string, data []byte, mut bool) bool {
 	mu.Lock()
 	defer mu.Unlock()
+	if dead {
+		// the simulated process is dead: code still running (deferred calls during the
+		// unwinding of the Crash panic) must have no effect on the file system
+		if mut {
+			opCount++
+		}
+		return true
+	}
 	fail := false
 	if failAt >= 0 && (mut || !failMut) {
 		if opCount == failAt {
 			fail = true
 			failed = true
+			lastFault = kind + ":" + path
+			if crashMode {
+				opCount++
+				dead = true
+				panic(Crash)
+			}
 		}
 		opCount++
 	}
@@ -92,15 +132,37 @@ func op(kind, path string, data []byte, mut bool) bool {
 }
 
 type File struct {
-	f    *os.File
-	path string
-	w    bool
+	f     *os.File
+	path  string
+	w     bool
+	wrote bool
 }
 
 func (f *File) Read(p []byte) (int, error) { return f.f.Read(p) }
+
+// Write: the writes of one open file are ONE file-system operation for the log and for
+// fault injection (gzip issues several); later chunks are appended to the recorded payload
 func (f *File) Write(p []byte) (int, error) {
-	if op("write", f.path, p, true) {
-		return 0, ErrFault
+	if !f.wrote {
+		f.wrote = true
+		if op("write", f.path, p, true) {
+			return 0, ErrFault
+		}
+	} else {
+		mu.Lock()
+		if dead {
+			mu.Unlock()
+			return 0, ErrFault
+		}
+		if recording {
+			for i := len(events) - 1; i >= 0; i-- {
+				if events[i].Kind == "write" && events[i].Path == f.path {
+					events[i].Data = append(events[i].Data, p...)
+					break
+				}
+			}
+		}
+		mu.Unlock()
 	}
 	return f.f.Write(p)
 }
